@@ -468,18 +468,18 @@ func (d depLang) build() (valid *rx, malformed map[string]*rx) {
 	field := rCat(Ws, rOpt(rCat(rel, rStar(rCat(Ws, d.lit(","), Ws, rel)), rOpt(rCat(Ws, d.lit(","))))), Ws)
 	any := d.anyExcept("")
 	mal := map[string]*rx{
-		"unterminated-arch-list":   rCat(NAME, Wp, d.lit("["), rStar(d.anyExcept("]"))),
-		"unterminated-version":     rCat(NAME, Ws, d.lit("("), rStar(d.anyExcept(")"))),
-		"unterminated-substvar":    rCat(d.lit("${"), rStar(d.anyExcept("}"))),
-		"unterminated-profile":     rCat(NAME, Wp, d.lit("<"), rStar(d.anyExcept(">"))),
-		"mixed-negation":           rCat(NAME, Wp, d.lit("["), Ws, rAlt(rCat(ANAME, Wp, d.lit("!"), ANAME), rCat(d.lit("!"), ANAME, Wp, ANAME)), rStar(any)),
-		"second-version-clause":    rCat(NAME, Ws, ver, Ws, ver, rStar(any)),
-		"second-arch-clause":       rCat(NAME, Wp, archs, Ws, archs, rStar(any)),
-		"unknown-operator":         rCat(NAME, Ws, d.lit("("), Ws, d.badOp(), rStar(any)),
-		"two-names-no-separator":   rCat(NAME, Wp, NAME, rStar(any)),
-		"name-after-substvar":      rCat(subst, Wp, NAME, rStar(any)),
-		"clause-after-substvar":    rCat(subst, Ws, rAlt(ver, archs, prof), rStar(any)),
-		"double-negated-profile":   rCat(NAME, Wp, d.lit("<"), Ws, d.lit("!!"), rStar(any)),
+		"unterminated-arch-list": rCat(NAME, Wp, d.lit("["), rStar(d.anyExcept("]"))),
+		"unterminated-version":   rCat(NAME, Ws, d.lit("("), rStar(d.anyExcept(")"))),
+		"unterminated-substvar":  rCat(d.lit("${"), rStar(d.anyExcept("}"))),
+		"unterminated-profile":   rCat(NAME, Wp, d.lit("<"), rStar(d.anyExcept(">"))),
+		"mixed-negation":         rCat(NAME, Wp, d.lit("["), Ws, rAlt(rCat(ANAME, Wp, d.lit("!"), ANAME), rCat(d.lit("!"), ANAME, Wp, ANAME)), rStar(any)),
+		"second-version-clause":  rCat(NAME, Ws, ver, Ws, ver, rStar(any)),
+		"second-arch-clause":     rCat(NAME, Wp, archs, Ws, archs, rStar(any)),
+		"unknown-operator":       rCat(NAME, Ws, d.lit("("), Ws, d.badOp(), rStar(any)),
+		"two-names-no-separator": rCat(NAME, Wp, NAME, rStar(any)),
+		"name-after-substvar":    rCat(subst, Wp, NAME, rStar(any)),
+		"clause-after-substvar":  rCat(subst, Ws, rAlt(ver, archs, prof), rStar(any)),
+		"double-negated-profile": rCat(NAME, Wp, d.lit("<"), Ws, d.lit("!!"), rStar(any)),
 	}
 	return field, mal
 }
@@ -615,7 +615,10 @@ func checkC04(p *Prog, rp *Report) {
 
 	er := rp.Rule("C04-ERR", "errors in the parser's call tree are returned", 10)
 	for _, f := range reachableRepoFuncs(parse) {
-		for _, s := range errDiscipline(f, func(n string, c *ssa.Call) bool { callee := c.Call.StaticCallee(); return callee != nil && inRepo(callee) }) {
+		for _, s := range errDiscipline(f, func(n string, c *ssa.Call) bool {
+			callee := c.Call.StaticCallee()
+			return callee != nil && inRepo(callee)
+		}) {
 			key := fname(f) + ":err(" + strings.TrimPrefix(s.Callee, "dependency.") + ")"
 			er.check(s.Status == "returned" || s.Status == "checked", key, p.Pos(s.Call.Pos()), "error "+s.Status, "the error of "+s.Callee+" is "+s.Status+": "+s.Detail)
 		}
